@@ -37,6 +37,9 @@ enum Scenario {
     /// the peer receives is whole frames, one per request (AsyncServer: byte stream; WebSocket server: one
     /// binary message per frame)
     ServerLongError { ws: bool, len: usize, handler_error: bool },
+    /// requests whose method paths have these lengths, issued back to back (optionally with the peer accepting
+    /// at most `chunk` bytes per write): what the peer receives is whole frames carrying exactly those paths
+    ClientLongQueries { kind: Kind, chunk: usize },
     /// many concurrent writers (calls, every fourth a notify) with pads cycling over the boundary classes
     ManyWriters { kind: Kind, n: usize, stall: Option<usize> },
     /// blocking Client over TCP with a write timeout and a peer that is not reading: notifies of `fill` pad bytes
@@ -160,6 +163,11 @@ fn scenarios(tier: Tier) -> Vec<Scenario> {
             for handler_error in [false, true] {
                 v.push(Scenario::ServerLongError { ws, len, handler_error });
             }
+        }
+    }
+    for kind in [Kind::Async, Kind::Ws] {
+        for chunk in [0usize, 7, 48, 256, 4096] {
+            v.push(Scenario::ClientLongQueries { kind, chunk });
         }
     }
     // megabyte requests abandoned mid-send (1 MiB + a bit, 3 MiB), the cut around the sizes a client might split at
@@ -548,6 +556,44 @@ async fn async_server_stall(k: usize, n: usize, chunk: usize) -> (Bad, u64) {
     }
     srv.abort();
     (bad, 64)
+}
+
+const QUERY_LENS: [usize; 22] = [2, 16, 47, 48, 49, 63, 64, 65, 127, 128, 200, 207, 208, 209, 210, 255, 256, 257, 300, 4096, 8192, 70_000];
+
+async fn client_long_queries(kind: Kind, chunk: usize) -> (Bad, u64) {
+    let mut bad = Bad::new();
+    let ctx = format!("{} requests with method paths of {QUERY_LENS:?} bytes, peer accepting at most {chunk} bytes per write (0 = unlimited)", kind.name());
+    let Conn { cli, mut peer, .. } = clients::connect(kind).await;
+    if chunk > 0 {
+        peer.ctl().a_to_b.set_write_chunk(chunk);
+    }
+    let mut hs = Vec::new();
+    for (i, len) in QUERY_LENS.iter().enumerate() {
+        hs.push(tokio::spawn(cli.call_path(300 + i as u64, *len)));
+        memstream::settle().await;
+    }
+    let key = format!("C05:{}:frames-differ", kind.name());
+    match peer.drain_requests().await {
+        Err(e) => bad.push((format!("C05:{}:torn-or-interleaved", kind.name()), format!("{ctx}: {e}"))),
+        Ok(reqs) => {
+            let ids = clients::tag_ids(&reqs);
+            for (i, len) in QUERY_LENS.iter().enumerate() {
+                match reqs.iter().find(|f| clients::tag_ids(std::slice::from_ref(*f)).contains_key(&(300 + i as u64))) {
+                    None => bad.push((key.clone(), format!("{ctx}: the request with the {len}-byte path did not arrive as a frame ({} frames arrived)", reqs.len()))),
+                    Some(f) if f.query.len() != (*len).max(2) => bad.push((key.clone(), format!("{ctx}: the request with the {len}-byte path arrived with a {}-byte query", f.query.len()))),
+                    Some(_) => {}
+                }
+            }
+            for (tag, id) in ids {
+                let _ = tag;
+                peer.send(&clients::reply(id)).await;
+            }
+        }
+    }
+    for h in hs {
+        let _ = clients::join_call(h).await;
+    }
+    (bad, 2)
 }
 
 async fn server_long_error(ws: bool, len: usize, handler_error: bool) -> (Bad, u64) {
@@ -963,6 +1009,7 @@ fn run_one(rt: &tokio::runtime::Runtime, sc: &Scenario) -> (Bad, u64) {
         Scenario::ClientWriters { kind, pads, stall } => rt.block_on(client_writers(*kind, pads, *stall)),
         Scenario::ClientAbandon { kind, k, queued } => rt.block_on(client_abandon(*kind, *k, *queued, None, 20_000)),
         Scenario::ClientAbandonThen { kind, k, then } => rt.block_on(client_abandon(*kind, *k, false, Some(*then), 20_000)),
+        Scenario::ClientLongQueries { kind, chunk } => rt.block_on(client_long_queries(*kind, *chunk)),
         Scenario::ServerLongError { ws, len, handler_error } => rt.block_on(server_long_error(*ws, *len, *handler_error)),
         Scenario::AsyncServerWriteTimeoutRoutes { k, pipelined, big_blocking, small_blocking } => {
             rt.block_on(async_server_write_timeout_on(*k, *pipelined, if *big_blocking { "/bigb" } else { "/big" }, if *small_blocking { "/smallb" } else { "/small" }))
